@@ -109,7 +109,7 @@ func sourcesCase(c *explore.Ctx, s *explore.SubStats, side *gramSide, in sources
 func sourcesSub(c *explore.Ctx, side *gramSide, g *refgrammar.Grammar) {
 	n := c.Pick(3, 4)
 	_ = n
-	s := c.Sub("sources", fmt.Sprintf("every ordered pair (and, thorough, triple of the first 40) of type-system sentences over the core alphabet (all of ≤ %d tokens, plus the schema definitions / extensions one token longer), as separate sources, × every assignment of the built-in flag", n),
+	s := c.Sub("sources", fmt.Sprintf("every ordered pair (and, thorough, triple of the first 40) of type-system sentences over the core alphabet (all of ≤ %d tokens, plus one definition and one extension of every kind and the schema definitions / extensions one token longer), as separate sources, × every assignment of the built-in flag", n),
 		"ParseSchemas succeeds, its tree equals the derivation tree of the concatenated token sequence (definitions in source order), and every definition/extension carries the BuiltIn flag of its own source", "every case")
 	if s == nil {
 		return
@@ -123,6 +123,8 @@ func sourcesSub(c *explore.Ctx, side *gramSide, g *refgrammar.Grammar) {
 			texts = append(texts, renderClasses(side.core, sent.Classes, " "))
 		}
 	}
+	// one definition and one extension of every kind (longer than the sweep reaches)
+	texts = append(texts, sourcesExtras...)
 	if c.Shard == 0 {
 		s.Extra["sentences"] = float64(len(texts))
 	}
@@ -166,6 +168,11 @@ func sourcesSub(c *explore.Ctx, side *gramSide, g *refgrammar.Grammar) {
 		}
 	}
 	s.WallS = time.Since(t0).Seconds()
+}
+
+var sourcesExtras = []string{
+	"extend type a @ a", "extend type a { a : a }", "extend interface a @ a", "extend union a = a", "extend enum a { a }", "extend input a @ a", "extend scalar a @ a",
+	"scalar a", "enum a { a }", "directive @ a on a", "union a = a", "input a { a : a }",
 }
 
 // ---- corpus binding -----------------------------------------------------------------------
